@@ -18,9 +18,11 @@ import (
 	"encoding/json"
 	"fmt"
 	"os"
+	"runtime"
 	"sort"
 	"strconv"
 	"sync"
+	"sync/atomic"
 	"testing"
 	"time"
 
@@ -427,7 +429,11 @@ func (w *world) prepare(st drv.Step) prepared {
 var statusOf = map[string]core.DeadlineStatus{"expired": core.DeadlineExpired, "exempt": core.DeadlineExempt, "scheduled": core.DeadlineScheduled}
 
 // exec runs one prepared step on the calling goroutine.
-func (w *world) exec(ctx context.Context, p prepared, rendezvous func()) {
+func (w *world) exec(ctx context.Context, p prepared, rendezvous func(), direct bool) {
+	run := w.guarded
+	if direct { // inside a concurrent block: the block as a whole has the watchdog
+		run = func(fn func()) bool { fn(); return true }
+	}
 	if w.isHung() {
 		rendezvous()
 
@@ -445,7 +451,7 @@ func (w *world) exec(ctx context.Context, p prepared, rendezvous func()) {
 			"batch": batchJSON(p.batch)})
 		rendezvous()
 		var err error
-		ok := w.guarded(func() {
+		ok := run(func() {
 			if internal {
 				err = w.db.StoreInternal(cctx, p.real, p.set)
 			} else {
@@ -465,7 +471,7 @@ func (w *world) exec(ctx context.Context, p prepared, rendezvous func()) {
 		rendezvous()
 		// The Trim loop is sequential and the channel unbuffered: once the barrier duty has been taken, the
 		// critical section for the real duty has completed.
-		ok := w.guarded(func() {
+		ok := run(func() {
 			w.dl.ch <- p.real
 			w.dl.ch <- core.Duty{}
 		})
@@ -495,7 +501,7 @@ func runOnce(t *testing.T, sid, thr int, steps []drv.Step) ([]drv.Step, bool) {
 			if prep[i].status != "" {
 				w.dl.set(prep[i].real, statusOf[prep[i].status])
 			}
-			w.exec(ctx, prep[i], func() {})
+			w.exec(ctx, prep[i], func() {}, false)
 			i++
 
 			continue
@@ -524,12 +530,11 @@ func runOnce(t *testing.T, sid, thr int, steps []drv.Step) ([]drv.Step, bool) {
 				rounds = len(list)
 			}
 		}
-		barriers := make([]*sync.WaitGroup, rounds)
+		barriers := make([]int32, rounds)
 		for k := range barriers {
-			barriers[k] = new(sync.WaitGroup)
 			for _, list := range byTh {
 				if len(list) > k {
-					barriers[k].Add(1)
+					barriers[k]++
 				}
 			}
 		}
@@ -540,13 +545,18 @@ func runOnce(t *testing.T, sid, thr int, steps []drv.Step) ([]drv.Step, bool) {
 				defer wg.Done()
 				for k, p := range list {
 					w.exec(ctx, p, func() {
-						barriers[k].Done()
-						w.guarded(barriers[k].Wait)
-					})
+						// spinning barrier: all k-th steps enter the store within a few hundred nanoseconds
+						atomic.AddInt32(&barriers[k], -1)
+						for t0 := time.Now(); atomic.LoadInt32(&barriers[k]) > 0 && time.Since(t0) < hangAfter; {
+							runtime.Gosched()
+						}
+					}, true)
 				}
 			}(list)
 		}
-		wg.Wait()
+		if !w.guarded(wg.Wait) {
+			break
+		}
 		i = j
 	}
 	hung := w.isHung()
